@@ -66,12 +66,24 @@ def run(ctx: Ctx, rep: Report) -> None:
         enc_name, salt_name = norm(st.targets[0].elts[0]), norm(st.targets[0].elts[1])
     eb = bind_call_args(call, ctx.fn(ENC).params)
     got = {k: norm(defs.expand(v)) for k, v in eb.items()}
-    eng = next((p for p in fn.params if "engine_id" in p), None)
+    # roles of the encryption step's parameters, read off its call site in the security model
+    eng = boots_p = time_p = None
+    for caller, ccall in ctx.callers_of(fn):
+        cdefs = ctx.defs(caller)
+        for pname, arg in bind_call_args(ccall, fn.params, skip_self=False).items():
+            txt = norm(cdefs.expand(arg))
+            if txt.endswith("['authoritative_engine_boots']"):
+                boots_p = pname
+            elif txt.endswith("['authoritative_engine_time']"):
+                time_p = pname
+            elif txt in caller.params and "engine" in txt:
+                eng = pname
+    eng = eng or next((p for p in fn.params if "engine_id" in p), None)
     want = {
         "localised_key": f"localise_key({cred}, {eng})",
         "engine_id": eng,
-        "engine_boots": "engine_boots",
-        "engine_time": "engine_time",
+        "engine_boots": boots_p or "engine_boots",
+        "engine_time": time_p or "engine_time",
         "data": f"bytes({msg_param}.scoped_pdu)",
     }
     rep.check(got == want, "C11-R2", fn.site(call), "encrypt_data(localised key, engine id, boots, time, bytes(scoped PDU)) in Protocol order", f"{got}", key=f"{fn.key}|encrypt-args")
